@@ -73,10 +73,12 @@ Definition delete_pl (fl : flags) (s : st) : st * bool * list sop :=
   end.
 
 (* deleteOldPipelines: which pipelines are handed to Delete *)
-Definition swept (keep : list nat) (w : world) (id : nat) : bool :=
-  exists_pl w id && w_cfg (w id) && negb (mem id keep).
+Definition swept1 (keep : list nat) (x : went) (id : nat) : bool :=
+  has_pl (w_st x) && w_cfg x && negb (mem id keep).
+Definition swept (keep : list nat) (w : world) (id : nat) : bool := swept1 keep (w id) id.
 Definition sweep (fl : flags) (keep : list nat) (w : world) : world := fun id =>
-  if swept keep w id then mkW (fst (fst (delete_pl fl (w_st (w id))))) (w_cfg (w id)) else w id.
+  let x := w id in
+  if swept1 keep x id then mkW (fst (fst (delete_pl fl (w_st x)))) (w_cfg x) else x.
 
 Definition init_err (w : world) (dir : list dentry) (res : list (nat * bool * list sop)) : bool :=
   existsb (dup dir) (ids_of dir)
